@@ -10,13 +10,21 @@
 (*     gm  month units:  (unit, n, month, class of day-of-month dlo..dhi, leap-ness of the target *)
 (*         year) -> (years moved, month, day - start day, time of day)                            *)
 (*   The group's claim is checked for the whole class, and the witness is recomputed in full.     *)
-EXTENDS Bump, Batch
+(*   k = "raw" with the fields real / dress: the start was handed over in that realisation (the   *)
+(*              law reads it as the instant t - domain: the realisation can say t) and the bump   *)
+(*              in that dress (numpy integer, Timedelta, str subclass ...: the same bump)         *)
+(*   k = "sess" one recorded SESSION on shared objects: lists0 = the caller's lists at the start,  *)
+(*              steps = <<kind, action, outcome, the caller's lists afterwards>>, kind "call"      *)
+(*              (action <<op, start, argument, spelling>>) or "edit" (the caller's own action);    *)
+(*              the fold carries the abstract lists: every call is judged by the law on the lists   *)
+(*              as they are at that moment and must leave them as they were.                        *)
+EXTENDS BumpSession, Batch
 
 W0 == 730122                                \* 2000-01-03, a Monday
-Ok(t) == <<"ok", t>>
 
 RawVerdict(o) ==
     IF ~InDomain(o.t, o.bump) THEN "domain"
+    ELSE IF "real" \in DOMAIN o /\ ~RealOk(o.real, o.t) THEN "domain"
     ELSE IF o.out[1] # "ok" THEN "raised"
     ELSE IF o.out[2] = Apply(o.t, o.bump) THEN ""
     ELSE IF o.bump[1] # "tenor" THEN "fixed_exact"
@@ -55,7 +63,34 @@ GmVerdict(o) ==
         ELSE IF AddUnit(Midnight(o.wit[1]), o.n, o.unit) # <<o.wit[2], o.s1, o.u1>> THEN "month_keeps_day_or_rolls"
         ELSE ""
 
+\* the clause of the statement a wrong result of call c on `lists` breaks
+SessClause(lists, c) ==
+    LET items == ArgItems(lists, c[3]) IN
+    IF Len(items) # 1 THEN "compound_left_to_right"
+    ELSE IF items[1][1] # "tenor" THEN "fixed_exact"
+    ELSE IF Len(items[1][2]) > 1 THEN "compound_left_to_right"
+    ELSE IF items[1][2][1][2] = "b" THEN "b_nth_weekday"
+    ELSE IF items[1][2][1][2] \in MonthUnits THEN "month_keeps_day_or_rolls"
+    ELSE "fixed_exact"
+RECURSIVE SessFold(_, _, _)
+SessFold(lists, steps, k) ==
+    IF k > Len(steps) THEN ""
+    ELSE LET e == steps[k] IN
+         IF e[1] = "call" THEN
+              IF ~CallInDomain(lists, e[2]) THEN "domain"
+              ELSE IF e[3][1] # "ok" THEN "raised"
+              ELSE IF e[3] # LawCall(lists, e[2]) THEN SessClause(lists, e[2])
+              ELSE IF e[4] # lists THEN "argument_changed"
+              ELSE SessFold(lists, steps, k + 1)
+         ELSE IF e[1] = "edit" THEN
+              IF ~EditOk(lists, e[2]) THEN "domain"
+              ELSE IF e[4] # Edit(lists, e[2]) THEN "domain"          \* the driver's own bookkeeping
+              ELSE SessFold(Edit(lists, e[2]), steps, k + 1)
+         ELSE "unknown_kind"
+SessVerdict(o) == SessFold(o.lists0, o.steps, 1)
+
 Verdict(o) == CASE o.k = "raw" -> RawVerdict(o)
+                [] o.k = "sess" -> SessVerdict(o)
                 [] o.k = "gb"  -> GbVerdict(o)
                 [] o.k = "gf"  -> GfVerdict(o)
                 [] o.k = "gm"  -> GmVerdict(o)
